@@ -13,6 +13,8 @@
 (*                 component-alpha mask of a solid white source (both show the samples)     *)
 (*   FetchWide     the same through the wide (floating point) pipeline: DISJOINT_OVER onto  *)
 (*                 a cleared a8r8g8b8 destination, SRC onto rgba_float / a2r10g10b10        *)
+(*   FetchFar      a composite whose sample positions lie anywhere in the 16.16 range       *)
+(*                 (pair arithmetic), SRC / OVER into a8r8g8b8, x8r8g8b8 or r5g6b5          *)
 (*                                                                                          *)
 (* Units: positions are 16.16 fixed point integers (One = 65536).  Pixel (x, y) of an       *)
 (* image covers [x, x+1) x [y, y+1); its centre is x + 1/2.  Pixels are <<a, r, g, b>>.     *)
@@ -22,10 +24,11 @@
 (* +-MaxPos pixels (16000), sum of |kernel coefficients| < 128.0, separable kernel entries  *)
 (* below 4.0 in magnitude.  A request one of whose pixel centres (request expanded by one    *)
 (* pixel, as the library's own range check does) leaves this domain or has w = 0 is not      *)
-(* judged.                                                                                  *)
+(* judged.  FetchFar lifts the position bound for affine transforms to 32700 pixels (the     *)
+(* whole 16.16 range less the reach of a filter) by computing with <<whole, frac>> pairs.   *)
 EXTENDS Integers, Sequences
 
-VARIABLES image,      \* [fmt, w, h, pix]  pix[y+1][x+1] = raw pixel value as <<hi16, lo16>>
+VARIABLES image,      \* [fmt, w, h, pix, ox, oy]  pix[y+1][x+1] = raw pixel value as <<hi16, lo16>>; ox = oy = 0 (see At)
           transform,  \* <<r0, r1, r2>>, each row <<m0, m1, m2>> of raw 16.16 integers
           filter,     \* [f |-> "nearest"|"bilinear"|"convolution"|"separable", params |-> sequence of raw 16.16 integers]
           repeat,     \* "none" | "normal" | "pad" | "reflect"
@@ -68,9 +71,17 @@ RepeatIdxM(mode, c, size, fix) ==
 
 RepeatIdx(mode, c, size) == RepeatIdxM(mode, c, size, 1)
 
+(* An image record carries the whole-pixel origin (ox, oy) of the coordinates in which it is   *)
+(* addressed: pixel index (ix, iy) of the view At(img, ox, oy) is pixel (ix + ox, iy + oy) of  *)
+(* img.  The state variable `image` always has the origin (0, 0); views with another origin    *)
+(* let the filters below work on positions p = whole * One + frac that do not fit TLC's 32-bit *)
+(* integers: sample the view At(img, whole_x, whole_y) at (frac_x, frac_y) (see FetchFar).     *)
+MkImage(fmt, w, h, pix) == [fmt |-> fmt, w |-> w, h |-> h, pix |-> pix, ox |-> 0, oy |-> 0]
+At(img, ox, oy) == [img EXCEPT !.ox = ox, !.oy = oy]
+
 PixelAt(img, mode, ix, iy) ==
-    LET x == RepeatIdx(mode, ix, img.w)
-        y == RepeatIdx(mode, iy, img.h)
+    LET x == RepeatIdx(mode, ix + img.ox, img.w)
+        y == RepeatIdx(mode, iy + img.oy, img.h)
     IN IF x < 0 \/ y < 0 THEN Transparent ELSE Expand(img.fmt, img.pix[y + 1][x + 1])
 
 (* ---------------------------------------------------------------------------------------- *)
@@ -296,10 +307,75 @@ WideAdmissible(img, m, flt, mode, x0, y0, n, rows, px, max) ==
         \A j \in 1..rows, i \in 1..n : WidePixelOK(img, m, flt, mode, x0 + i - 1, y0 + j - 1, px[j][i], max)
 
 (* ---------------------------------------------------------------------------------------- *)
+(* far from the origin: affine transforms whose sample positions use the whole 16.16 range   *)
+(* (|position| up to 32767 pixels: 2^31 units), requests tens of thousands of pixels wide,   *)
+(* matrix entries up to 32767.  Nothing of this fits TLC's 32-bit integers, so a position is *)
+(* kept as a pair <<whole, frac>> = whole * One + frac with 0 <= frac < One ("PF"), and the  *)
+(* filters are evaluated on the view of the image whose origin is the whole part.            *)
+
+PF(h, l) == <<h + l \div One, l % One>>                       \* normalise: l any (32-bit) integer
+PFNeg(a) == IF a[2] = 0 THEN <<-a[1], 0>> ELSE <<-a[1] - 1, One - a[2]>>
+PFAdd(a, b) == PF(a[1] + b[1], a[2] + b[2])
+
+(* v * k for a 32-bit v and 0 <= k < 2^18, provided |v \div One| * k <= 2^29 (FarMulOK):     *)
+(* v = vh One + vl, k = 256 kh + kl:  v k = (vh k) One + (vl kh) 256 + vl kl                   *)
+PFMulNat(v, k) ==
+    LET vh == v \div One  vl == v % One  kh == k \div 256  kl == k % 256  t == vl * kh IN
+    PF(vh * k + t \div 256, (t % 256) * 256 + vl * kl)
+PFMulInt(v, k) == IF k >= 0 THEN PFMulNat(v, k) ELSE PFNeg(PFMulNat(v, -k))
+
+Pow29 == 536870912
+FarMulOK(v, k) == k = 0 \/ (Abs(k) < 262144 /\ Abs(v \div One) <= Pow29 \div Abs(k))
+
+(* floor (a / 2) *)
+PFHalf(a) == IF a[1] % 2 = 0 THEN <<a[1] \div 2, a[2] \div 2>> ELSE <<(a[1] - 1) \div 2, (One + a[2]) \div 2>>
+
+(* AffinePos as a pair: ((m[r] . (2x+1, 2y+1, 2)) + 1) \div 2 *)
+PosPF(m, r, x, y) ==
+    PFHalf(PFAdd(PFAdd(PFAdd(PFMulInt(m[r][1], 2 * x + 1), PFMulInt(m[r][2], 2 * y + 1)), PFMulInt(m[r][3], 2)), <<0, 1>>))
+
+FarMax == 32700            \* pixels; the library itself refuses requests whose (expanded) corners leave the 16.16
+                           \* range (+- 32768 pixels) by more than the filter's reach: those are not judged
+
+FarRegular(m, x, y) ==
+    \A r \in 1..2 : /\ FarMulOK(m[r][1], 2 * x + 1) /\ FarMulOK(m[r][2], 2 * y + 1)
+                    /\ Abs(PosPF(m, r, x, y)[1]) <= FarMax
+
+(* request coordinates fit 16 bits when expanded by one pixel (the library's own precondition); an   *)
+(* affine map takes its extremes over a rectangle at the corners                                     *)
+FarInDomain(m, x0, y0, n, rows) ==
+    /\ IsAffine(m)
+    /\ n >= 1 /\ rows >= 1 /\ n <= 65536 /\ rows <= 65536
+    /\ x0 - 1 >= -32768 /\ y0 - 1 >= -32768 /\ x0 + n + 1 <= 32767 /\ y0 + rows + 1 <= 32767
+    /\ \A x \in {x0 - 1, x0 + n}, y \in {y0 - 1, y0 + rows} : FarRegular(m, x, y)
+
+FarSample(img, m, flt, mode, x, y) ==
+    LET P == PosPF(m, 1, x, y)  Q == PosPF(m, 2, x, y) IN SampleAt(At(img, P[1], Q[1]), flt, mode, P[2], Q[2])
+
+(* what a destination of format dfmt shows (raw pixel o = <<hi16, lo16>>) when the a8r8g8b8 value v   *)
+(* = <<a, r, g, b>> is stored in it: x8r8g8b8 leaves the unused byte unspecified, r5g6b5 keeps the    *)
+(* most significant 5 / 6 / 5 bits of the colour channels                                            *)
+Shows(dfmt, o, v) ==
+    CASE dfmt = "a8r8g8b8" -> o[1] = v[1] * 256 + v[2] /\ o[2] = v[3] * 256 + v[4]
+      [] dfmt = "x8r8g8b8" -> o[1] % 256 = v[2] /\ o[2] = v[3] * 256 + v[4]
+      [] dfmt = "r5g6b5"   -> o[1] = 0 /\ o[2] = (v[2] \div 8) * 2048 + (v[3] \div 4) * 32 + v[4] \div 8
+
+(* wins: the windows <<i0, j0, wn, hn>> (offsets within the request) of the destination that were      *)
+(* recorded; obs[k][j][i] the raw destination pixel at column i0 + i - 1, row j0 + j - 1 of window k  *)
+FarAdmissible(img, m, flt, mode, dfmt, x0, y0, n, rows, wins, obs) ==
+    \* (the library accepts bits images of fewer than 32767 pixels per side only)
+    (FarInDomain(m, x0, y0, n, rows) /\ img.w < 32767 /\ img.h < 32767) =>
+        \A k \in 1..Len(wins) :
+            LET i0 == wins[k][1]  j0 == wins[k][2]  wn == wins[k][3]  hn == wins[k][4] IN
+            /\ i0 >= 0 /\ j0 >= 0 /\ i0 + wn <= n /\ j0 + hn <= rows
+            /\ \A j \in 1..hn, i \in 1..wn :
+                   Shows(dfmt, obs[k][j][i], FarSample(img, m, flt, mode, x0 + i0 + i - 1, y0 + j0 + j - 1))
+
+(* ---------------------------------------------------------------------------------------- *)
 (* actions                                                                                  *)
 
 Init ==
-    /\ image = [fmt |-> "a8r8g8b8", w |-> 1, h |-> 1, pix |-> <<<< <<0, 0>> >>>>]
+    /\ image = MkImage("a8r8g8b8", 1, 1, <<<< <<0, 0>> >>>>)
     /\ transform = Identity
     /\ filter = [f |-> "nearest", params |-> <<>>]
     /\ repeat = "none"
@@ -330,6 +406,14 @@ Fetch(x0, y0, n, rows, px) ==
 FetchWide(x0, y0, n, rows, px, max) ==
     /\ WideAdmissible(image, transform, filter, repeat, x0, y0, n, rows, px, max) = TRUE
     /\ out' = [x0 |-> x0, y0 |-> y0, n |-> n, rows |-> rows, px |-> px, max |-> max]
+    /\ UNCHANGED <<image, transform, filter, repeat>>
+
+(* A request far from the origin (affine transform), evaluated by the narrow pipeline into a          *)
+(* destination of format dfmt whose previous content does not show (SRC, or OVER onto a cleared       *)
+(* destination); only the windows wins of the destination were recorded                               *)
+FetchFar(dfmt, x0, y0, n, rows, wins, obs) ==
+    /\ FarAdmissible(image, transform, filter, repeat, dfmt, x0, y0, n, rows, wins, obs) = TRUE
+    /\ out' = [x0 |-> x0, y0 |-> y0, n |-> n, rows |-> rows, wins |-> wins, px |-> obs]
     /\ UNCHANGED <<image, transform, filter, repeat>>
 
 (* Named deviation (known finding C08-solid-ignores-kernel-gain): a 1x1 image with a repeat   *)
